@@ -35,6 +35,7 @@ type Val struct {
 	Tup   []Val
 	Elems []Val // static contents of a slice built from a local array
 	Static *Val  // for an element address: the statically known content
+	Emb   bool   // interior reference of an inline struct (never nil)
 	Iter  string // state component holding the visited set of a map iterator
 	Off   string // element offset of a sub-slice s[lo:] (translator-level; such values must not escape)
 	Fresh bool  // reference allocated during this execution
@@ -139,6 +140,7 @@ type Engine struct {
 	notes    []string
 	conc     bool
 
+	nGlobals      int
 	usedLemmas    map[string]bool
 	ordinals      map[string]int
 	pureMode      bool
@@ -174,6 +176,7 @@ func (x *Engine) reset(fn string) {
 	x.conc = false
 	x.usedContracts = map[string]bool{}
 	x.ordinals = map[string]int{}
+	x.nGlobals = 0
 	if x.usedLemmas == nil {
 		x.usedLemmas = map[string]bool{}
 	}
@@ -485,8 +488,13 @@ func (x *Engine) wf(t types.Type, term string, st *State) string {
 		return fmt.Sprintf("(and (<= %s %s) (<= %s %s))", lo, term, term, hi)
 	}
 	switch u := t.Underlying().(type) {
-	case *types.Pointer, *types.Map, *types.Chan:
-		_ = u
+	case *types.Pointer:
+		if _, isS := structOf(u.Elem()); isS {
+			// the object and all its inline sub-objects lie below the allocation frontier
+			return fmt.Sprintf("(and (< %s %s) (<= (+ (mod %s %d) %d) %d))", term, x.get(st, "$alloc"), term, refStride, x.structSize(u.Elem()), refStride)
+		}
+		return fmt.Sprintf("(< %s %s)", term, x.get(st, "$alloc"))
+	case *types.Map, *types.Chan:
 		return fmt.Sprintf("(< %s %s)", term, x.get(st, "$alloc"))
 	case *types.Slice:
 		return fmt.Sprintf("(and (< (s_base %s) %s) (<= 0 (s_len %s)) (<= (s_len %s) (s_cap %s)) (<= (s_cap %s) 4611686018427387904) (=> (= (s_base %s) 0) (= (s_cap %s) 0)))",
@@ -522,7 +530,7 @@ func (x *Engine) initName(key string, gen int) string {
 	if !x.declared[n] {
 		x.decl(n, x.compSortOf(key))
 		if key == "$alloc" {
-			x.decls = append(x.decls, fmt.Sprintf("(assert (<= 1 %s))", n))
+			x.decls = append(x.decls, fmt.Sprintf("(assert (and (<= %d %s) (= (mod %s %d) 0)))", refStride, n, n, refStride))
 		}
 		if strings.HasPrefix(key, "MapDom:") {
 			// nil map has an empty domain
@@ -585,7 +593,7 @@ func (x *Engine) havocKey(st *State, key string) {
 		n := x.fresh("alloc")
 		x.decl(n, "Int")
 		st.h[key] = n
-		x.assume(st, fmt.Sprintf("(<= %s %s)", old, n))
+		x.assume(st, fmt.Sprintf("(and (<= %s %s) (= (mod %s %d) 0))", old, n, n, refStride))
 		return
 	}
 	n := x.fresh("hv_" + mangle(key))
@@ -770,14 +778,65 @@ func (x *Engine) storeAddr(st *State, a *Addr, v string) {
 	}
 }
 
+// Object references are multiples of refStride; the sub-objects of a struct stored inline (embedded structs,
+// struct-typed fields) get the references ref+1 .. ref+size-1, laid out like memory. This makes interior pointers
+// injective and order preserving (an interior reference is "old" exactly when its object is) without axioms.
+const refStride = 4096
+
+func (x *Engine) structSize(t types.Type) int {
+	st, ok := structOf(t)
+	if !ok || isOpaqueStruct(t) {
+		return 1
+	}
+	n := 1
+	for i := 0; i < st.NumFields(); i++ {
+		if _, inl := structOf(st.Field(i).Type()); inl {
+			n += x.structSize(st.Field(i).Type())
+		}
+	}
+	return n
+}
+
+func (x *Engine) embOff(owner types.Type, f *types.Var) int {
+	st, _ := structOf(owner)
+	off := 1
+	for i := 0; i < st.NumFields(); i++ {
+		g := st.Field(i)
+		if g == f {
+			return off
+		}
+		if _, inl := structOf(g.Type()); inl {
+			off += x.structSize(g.Type())
+		}
+	}
+	return off
+}
+
 func (x *Engine) embRef(owner types.Type, f *types.Var, ref string) string {
+	off := x.embOff(owner, f)
+	if x.structSize(owner) >= refStride {
+		x.degrade("struct too large for the reference layout: " + typeName(owner))
+	}
+	if k, ok := litInt(ref); ok {
+		return intLit(fmt.Sprint(k + int64(off)))
+	}
+	// an uninterpreted symbol keeps the term usable as a quantifier trigger; its meaning is ref+off
 	fn := "emb_" + mangle(typeName(owner)) + "_" + mangle(f.Name())
-	x.declRaw("fun:"+fn, fmt.Sprintf("(declare-fun %s (Int) Int)\n(declare-fun %s_inv (Int) Int)", fn, fn))
+	x.declRaw("fun:"+fn, fmt.Sprintf("(declare-fun %s (Int) Int)", fn))
 	t := fmt.Sprintf("(%s %s)", fn, ref)
-	// injectivity and negativity, instantiated per use (quantifier-free)
-	if !strings.Contains(ref, "_q") && !x.declared["inst:"+t] && !strings.Contains(ref, "dummy") {
+	if strings.Contains(ref, "dummy") {
+		return t
+	}
+	if strings.Contains(ref, "_q") || strings.Contains(ref, "cba") {
+		if !x.declared["qinst:"+fn] {
+			x.declared["qinst:"+fn] = true
+			x.decls = append(x.decls, fmt.Sprintf("(assert (forall ((r Int)) (! (= (%s r) (+ r %d)) :pattern ((%s r)))))", fn, off, fn))
+		}
+		return t
+	}
+	if !x.declared["inst:"+t] {
 		x.declared["inst:"+t] = true
-		x.emit(fmt.Sprintf("(assert (and (= (%s_inv %s) %s) (< %s 0)))", fn, t, ref, t))
+		x.emit(fmt.Sprintf("(assert (= %s (+ %s %d)))", t, ref, off))
 	}
 	return t
 }
@@ -854,7 +913,7 @@ func (x *Engine) zeroStruct(st *State, t types.Type, ref string) {
 func (x *Engine) alloc(st *State) string {
 	r := x.fresh("ref")
 	x.emit(fmt.Sprintf("(define-fun %s () Int %s)", r, x.get(st, "$alloc")))
-	st.h["$alloc"] = x.name("alloc", "Int", fmt.Sprintf("(+ %s 1)", r))
+	st.h["$alloc"] = x.name("alloc", "Int", fmt.Sprintf("(+ %s %d)", r, refStride))
 	return r
 }
 
